@@ -853,7 +853,21 @@ func (vc *VC) evalComposite(x *ast.CompositeLit, st *State) Value {
 		for _, v := range vals {
 			parts = append(parts, v.S)
 		}
-		return Term{fmt.Sprintf("(mk.%s %s)", s, strings.Join(parts, " ")), s, t}
+		lit := Term{fmt.Sprintf("(mk.%s %s)", s, strings.Join(parts, " ")), s, t}
+		// building a value of a type with a representation invariant: obligation
+		if n, ok := types.Unalias(t).(*types.Named); ok && n.Obj().Pkg() != nil {
+			for _, ti := range vc.w.cs.ValInvs {
+				if ti.Pkg == n.Obj().Pkg().Path() && ti.Type == n.Obj().Name() {
+					named := vc.define("lit", lit)
+					env := &SpecEnv{vc: vc, vars: map[string]Value{}, old: map[string]Value{}, bound: map[string]Term{"self": named}, pkg: ti.Pkg}
+					vc.inValInv = true
+					c := vc.specBool(ti.Clause.Expr, env)
+					vc.inValInv = false
+					vc.oblige("valinv", n.Obj().Name(), x.Pos(), st.pc, c, "representation invariant of "+n.Obj().Name()+": "+ti.Clause.Src)
+				}
+			}
+		}
+		return lit
 	case *types.Slice:
 		s := vc.ss.sortOf(t)
 		es := vc.ss.sortOf(u.Elem())
